@@ -3,6 +3,9 @@ from vf.engine import Cond
 from harness import ilv
 from harness.ilv import body_whole, body_whole_geo, body_epoch_step  # noqa: F401  (bodies are looked up on this module)
 
+MANIFEST_LEVEL = 'Within the stated bounds the SMT solver decides every path of the real InterleavedSampler (_training_loop, _eval_loop, batch sampler) against a closed-form oracle: whole runs with symbolic budget (and symbolic geometry n<=4..6), plus an inductive epoch step from any epoch boundary E<=1000 with unbounded budget. Unit tests sample 17 streams; here geometry x budget kind is enumerated and budget value / counters are symbolic.'
+MANIFEST_NOTE = "Trusted: CrossHair's models and z3; probe samplers yield len() indices; oracle in harness/ilv.py. Outside: n above the enumerated bound, real DataLoader workers."
+MANIFEST_TECHNIQUE = "bounded symbolic execution of the real code (CrossHair on z3): solver verdict over all values within the bounds, per enumerated configuration; counterexamples replayed concretely"
 PROPERTY = "C04"
 ENCODED = ilv.ENCODED[:5]
 STUBS = [
